@@ -216,6 +216,14 @@ def build_all(tier, types=None):
                 d = ["VF_CT=%d" % ct, "VF_PART=%d" % part, "VF_QUICK=%d" % (1 if tier == "quick" else 0)]
                 jobs.append(dict(name="dense_%s_%s_p%d_%s" % (kind, TYPES[ct].lower(), part, tier[0]), src=src, defines=d))
                 keys.append((kind, ct, part))
+    if tier == "quick" and types == QUICK_TYPES:
+        # the six column types the quick replay leaves to the thorough tier are at least driven by the recorder
+        # (Z_p plain configurations), validated by Trace_DenseMatrix.tla
+        for ct in range(9):
+            if ct not in QUICK_TYPES:
+                jobs.append(dict(name="dense_record_%s_p1_q" % TYPES[ct].lower(), src="dense_record.cpp",
+                                 defines=["VF_CT=%d" % ct, "VF_PART=1", "VF_QUICK=1"]))
+                keys.append(("record", ct, 1))
     bins = vf.build_many(jobs, par=PAR)
     rep = {(ct, part): b for (kind, ct, part), b in zip(keys, bins) if kind == "replay"}
     rec = {(ct, part): b for (kind, ct, part), b in zip(keys, bins) if kind == "record"}
